@@ -108,6 +108,13 @@ def run(chk, args):
         if not g3["ok"]:
             raise vlib.Machinery("HistoryGen (wrappers) failed: %s\n%s" % (g3["error"], g3["out"][-1500:]))
         hs += vlib.one_per_trace(vlib.parse_printed(g3["out"], "BEHAVIOUR"), prng)[:n3]
+        # pure-Python definitions only (few objects): kernels, DirectModel objects, reloads and releases follow each other
+        n4 = 80 if thorough else 8
+        g4 = vlib.tlc("HistoryGen", "HistoryGenPy.cfg", workers=1, simulate="num=%d" % n4, depth=35,
+                      seed=chk.seed + 21, timeout=900)
+        if not g4["ok"]:
+            raise vlib.Machinery("HistoryGen (python definitions) failed: %s\n%s" % (g4["error"], g4["out"][-1500:]))
+        hs += vlib.one_per_trace(vlib.parse_printed(g4["out"], "BEHAVIOUR"), prng)[:n4]
     for h in hs:
         for w in ("w1", "w2"):              # the trace module's wrapper set; unused wrappers get a default model
             h["wmodel"].setdefault(w, "sphere")
@@ -161,7 +168,7 @@ def run(chk, args):
         shutil.rmtree(work, ignore_errors=True)
     chk.cov["rule"] = (
         "TLC-simulated histories (40 operations: make_kernel, call_kernel, call_Fq, release, model release, "
-        "SasviewModel setParam/evalDistribution/clone, DirectModel calls, reload, bumps Experiment set values/update/theory) over sphere, cylinder, broad_peak (pure Python), "
+        "SasviewModel setParam/evalDistribution/clone, DirectModel calls, reload, bumps Experiment set values/update/theory) over sphere, cylinder, broad_peak (pure Python), a pure-Python plugin whose Iq takes one q at a time, "
         "sphere@hardsphere, sphere+cylinder with 3 q vectors (incl. 2-D) and 6 request kinds (mono, dispersed, "
         "two dispersed + cutoff, empty mesh, effective-radius mode, magnetic); each evaluating step compared "
         "bit-for-bit with a fresh-interpreter oracle. Non-trivial: at least 5 evaluating operations.")
